@@ -14,6 +14,7 @@ import Scalibr.Proofs.Parsers.Gemfile
 import Scalibr.Proofs.Parsers.Dpkg
 import Scalibr.Proofs.Parsers.Requirements
 import Scalibr.Proofs.Parsers.GoShape
+import Scalibr.Proofs.Parsers.RequirementsTree
 namespace Scalibr.Parsers
 
 /-! ### apk `installed` -/
@@ -209,6 +210,228 @@ example : Requirements.parse (Requirements.render Requirements.exLayout Requirem
     = .ok [("zope.interface".toList, "5.0".toList), ("q".toList, "1!2.0.post1".toList),
            ("Flask-Cors".toList, "3.0.10".toList), ("requests".toList, [])] :=
   C03_requirements_partial _ _ (by decide) (by decide) (by decide)
+
+/-! #### requirements files that include each other (`-r`) -/
+
+namespace Requirements
+
+theorem openFile_filesOf (files : List FileSpec) (p : Line) :
+    openFile (filesOf files) p = (fileAt files p).map content := by
+  induction files with
+  | nil => rfl
+  | cons f fs ih =>
+    simp only [openFile, filesOf, fileAt, List.map_cons, List.find?_cons] at ih ⊢
+    by_cases h : f.path = p
+    · simp [h]
+    · simp only [h, decide_false]; exact ih
+
+theorem fileAt_some {files : List FileSpec} {p : Line} {f : FileSpec} (h : fileAt files p = some f) : f ∈ files ∧ f.path = p := by
+  unfold fileAt at h
+  exact ⟨List.mem_of_find?_eq_some h, by simpa using List.find?_some h⟩
+
+theorem visit_none (files : List FileSpec) (p : Line) (h : fileAt files p = none) : visit (filesOf files) p = .err := by
+  simp [visit, openFile_filesOf, h]
+
+theorem visit_some (files : List FileSpec) (hwf : ∀ f ∈ files, WFfile f) (p : Line) (f : FileSpec) (h : fileAt files p = some f) :
+    visit (filesOf files) p = .ok (installed f.rs, (targets f).map (resolve p)) := by
+  have hw := hwf f (fileAt_some h).1
+  have hp : parse (content f) = .ok (installed f.rs) := C03_requirements_partial f.ℓ f.rs hw.1 hw.2.1.toWF hw.2.2
+  simp [visit, openFile_filesOf, h, hp, includes_render f hw]
+
+theorem flatMap_pins (files : List FileSpec) (hwf : ∀ f ∈ files, WFfile f) (top : Line) :
+    ∀ r : List (Line × List (List Char × List Char)),
+      (∀ x a, (x, a) ∈ r → ∃ i, visit (filesOf files) x = .ok (a, i)) →
+      r.flatMap (fun y => y.2.map (fun x => (x.1, x.2, [top, y.1]))) = (r.map (·.1)).flatMap (pinsAt files top) := by
+  intro r
+  induction r with
+  | nil => intro _; rfl
+  | cons y r ih =>
+    intro h
+    obtain ⟨i, hi⟩ := h y.1 y.2 (by simp)
+    have hy : y.2.map (fun x => (x.1, x.2, [top, y.1])) = pinsAt files top y.1 := by
+      cases hf : fileAt files y.1 with
+      | none => rw [visit_none files y.1 hf] at hi; cases hi
+      | some f =>
+        rw [visit_some files hwf y.1 f hf] at hi
+        simp only [Outcome.ok.injEq, Prod.mk.injEq] at hi
+        simp [pinsAt, hf, hi.1]
+    simp only [List.flatMap_cons, List.map_cons, hy]
+    rw [ih (fun x a hx => h x a (by simp [hx]))]
+
+end Requirements
+
+/-- **C03, requirements.txt with `-r` includes.** For every finite set of well-formed requirements files (`files`, the
+file system; core grammar of `C03_requirements_partial` plus `-r <path>` lines, each file with its own layout) and every
+well-formed top-level file, `Extract` — the byte-level model `extractAll` over the path → content map — reports the
+pins of the top-level file with locations `[top]`, followed, for the files of some list `order`, by the pins of that
+file with locations `[top, file]`; `order` has no duplicates and holds exactly the paths other than the top-level one that
+are REACHABLE (`Reach`): existing files named by an include line of a reachable file, the operand being resolved
+against the directory of the file that contains the line. So every reachable file's pins are reported exactly once —
+whatever the depth of the chain, the number of routes to a file, cycles, or same-named files in other directories —
+and nothing else is reported. `_partial`: per-file grammar as in `C03_requirements_partial`; include operands are
+made of letters, digits, `_`, `.`, `-` and `/`, not starting with '-'; only the `-r` spelling is an include (`--requirement` and `-c` lines are
+option lines for the extractor); `resolve` (= `filepath.Join(filepath.Dir(including), operand)`) is the model's path
+arithmetic, validated against the Go functions by the stream. -/
+theorem C03_requirements_tree_partial (files : List Requirements.FileSpec) (top : Requirements.FileSpec)
+    (hwf : ∀ f ∈ top :: files, Requirements.WFfile f) :
+    ∃ order : List Line,
+      Requirements.extractAll (Requirements.filesOf files) top.path (Requirements.content top)
+        = .ok ((Requirements.installed top.rs).map (fun x => (x.1, x.2, [top.path]))
+               ++ order.flatMap (Requirements.pinsAt files top.path))
+      ∧ order.Nodup ∧ ∀ p, p ∈ order ↔ (p ≠ top.path ∧ Requirements.Reach files top p) := by
+  open Requirements in
+  have hwfF : ∀ f ∈ files, WFfile f := fun f hf => hwf f (by simp [hf])
+  have hwt : WFfile top := hwf top (by simp)
+  have hnp : ∀ p, visit (filesOf files) p ≠ .panic := by
+    intro p
+    cases hf : fileAt files p with
+    | none => rw [visit_none files p hf]; intro h; cases h
+    | some f => rw [visit_some files hwfF p f hf]; intro h; cases h
+  have hvis : ∀ p, Visitable (visit (filesOf files)) p ↔ (fileAt files p).isSome := by
+    intro p
+    cases hf : fileAt files p with
+    | none =>
+      simp only [Option.isSome_none, Bool.false_eq_true, iff_false]
+      rintro ⟨a, i, h⟩; rw [visit_none files p hf] at h; cases h
+    | some f => simp only [Option.isSome_some, iff_true]; exact ⟨_, _, visit_some files hwfF p f hf⟩
+  let univ := files.map (·.path)
+  have hu : ∀ p, Visitable (visit (filesOf files)) p → p ∈ univ := by
+    intro p hp
+    have := (hvis p).mp hp
+    cases hf : fileAt files p with
+    | none => rw [hf] at this; cases this
+    | some f =>
+      obtain ⟨hm, he⟩ := fileAt_some hf
+      exact List.mem_map.mpr ⟨f, hm, he⟩
+  have hparse : parse (content top) = .ok (installed top.rs) :=
+    C03_requirements_partial top.ℓ top.rs hwt.1 hwt.2.1.toWF hwt.2.2
+  have hinc : includes (content top) = targets top := includes_render top hwt
+  let q0 := (targets top).map (resolve top.path)
+  have hfuel : q0.length + cost (visit (filesOf files)) [top.path] univ < walkFuel (filesOf files) q0 := by
+    have h1 := cost_le_total (visit (filesOf files)) [top.path] univ
+    have h2 : ((filesOf files).map fun x => 1 + incCount (visit (filesOf files)) x.1).sum
+        = (univ.map fun u => 1 + incCount (visit (filesOf files)) u).sum := by
+      simp [univ, filesOf, List.map_map, Function.comp_def]
+    unfold walkFuel
+    rw [h2]; omega
+  obtain ⟨r, hr, hc1, hc2⟩ := walk_complete (visit (filesOf files)) hnp univ hu _ q0 [top.path] hfuel
+  obtain ⟨hs1, hs2, hs3, hs4⟩ := walk_safe (visit (filesOf files)) _ q0 [top.path] r hr
+  have hholder : ∀ p, p ≠ top.path → holder files top p = fileAt files p := by
+    intro p hp; simp [holder, hp]
+  refine ⟨r.map (·.1), ?_, hs1, ?_⟩
+  · unfold extractAll
+    rw [hparse]
+    simp only [hinc]
+    rw [show walk (visit (filesOf files)) (walkFuel (filesOf files) (List.map (resolve top.path) (targets top)))
+          (List.map (resolve top.path) (targets top)) [top.path] = .ok r from hr]
+    simp only [flatMap_pins files hwfF top.path r hs3]
+  · intro p
+    constructor
+    · intro hp
+      refine ⟨fun e => hs2 p hp (by simp [e]), ?_⟩
+      refine hs4 (Reach files top) ?_ ?_ p hp
+      · intro y hy hv
+        by_cases hyt : y = top.path
+        · rw [hyt]; exact Reach.top
+        · refine Reach.step Reach.top (by simp [holder]) hy ?_
+          rw [hholder y hyt]; exact (hvis y).mp hv
+      · intro x a i hR hx hvx y hy hv
+        have hxt : x ≠ top.path := fun e => hx (by simp [e])
+        by_cases hyt : y = top.path
+        · rw [hyt]; exact Reach.top
+        · cases hf : fileAt files x with
+          | none => rw [visit_none files x hf] at hvx; cases hvx
+          | some f =>
+            rw [visit_some files hwfF x f hf] at hvx
+            simp only [Outcome.ok.injEq, Prod.mk.injEq] at hvx
+            refine Reach.step hR (by rw [hholder x hxt]; exact hf) (by rw [hvx.2]; exact hy) ?_
+            rw [hholder y hyt]; exact (hvis y).mp hv
+    · rintro ⟨hpt, hreach⟩
+      have key : ∀ q, Reach files top q → q = top.path ∨ q ∈ r.map (·.1) := by
+        intro q hq
+        induction hq with
+        | top => exact Or.inl rfl
+        | @step p' q' f hp' hh hq' hsome ih =>
+          by_cases hqt : q' = top.path
+          · exact Or.inl hqt
+          · right
+            have hv : Visitable (visit (filesOf files)) q' := by
+              rw [hholder q' hqt] at hsome; exact (hvis q').mpr hsome
+            rcases ih with e | hm
+            · subst e
+              have hf : f = top := by simpa [holder] using hh.symm
+              subst hf
+              rcases hc1 q' hq' hv with h | h
+              · simp at h; exact absurd h hqt
+              · exact h
+            · have hpt' : p' ≠ top.path := fun e => hs2 p' hm (by simp [e])
+              rw [hholder p' hpt'] at hh
+              rcases hc2 p' hm _ _ (visit_some files hwfF p' f hh) q' hq' hv with h | h
+              · simp at h; exact absurd h hqt
+              · exact h
+      rcases key p hreach with e | h
+      · exact absurd e hpt
+      · exact h
+
+/-- the same with a CHECKED enumeration of the reachable files (what the driver of the stream evaluates): if `ps` passes
+`isReachCert`, the scan reports a permutation of `expectedTree files top ps` — the top-level pins and, once per reachable
+file, that file's pins with their two locations -/
+theorem C03_requirements_tree_cert_partial (files : List Requirements.FileSpec) (top : Requirements.FileSpec)
+    (hwf : ∀ f ∈ top :: files, Requirements.WFfile f) (ps : List Line) (hc : Requirements.isReachCert files top ps = true) :
+    ∃ out, Requirements.extractAll (Requirements.filesOf files) top.path (Requirements.content top) = .ok out
+      ∧ out.Perm (Requirements.expectedTree files top ps) := by
+  obtain ⟨order, hout, hnd, hmem⟩ := C03_requirements_tree_partial files top hwf
+  obtain ⟨hnd', hmem'⟩ := Requirements.reachCert_iff files top ps hc
+  have hperm : order.Perm ps := (List.perm_ext_iff_of_nodup hnd hnd').mpr (fun p => by rw [hmem p, hmem' p])
+  exact ⟨_, hout, List.Perm.append_left _ (List.Perm.flatMap_right _ hperm)⟩
+
+/-- fuel adequacy of the include work list on ARBITRARY file contents (no well-formedness): the Go loop has no
+bound; above `walkFuel` the result of the model does not depend on the fuel -/
+theorem C03_requirements_walk_fuel_adequate (fs : Requirements.Files) (q : List Line) (top : Line) (k : Nat) :
+    Requirements.walk (Requirements.visit fs) (Requirements.walkFuel fs q + k) q [top]
+      = Requirements.walk (Requirements.visit fs) (Requirements.walkFuel fs q) q [top] := by
+  open Requirements in
+  have hu : ∀ p, Visitable (visit fs) p → p ∈ fs.map (·.1) := by
+    rintro p ⟨a, i, h⟩
+    unfold visit at h
+    cases ho : openFile fs p with
+    | none => rw [ho] at h; cases h
+    | some b =>
+      unfold openFile at ho
+      cases hf : fs.find? (fun x => x.1 = p) with
+      | none => rw [hf] at ho; cases ho
+      | some x =>
+        have h1 := List.mem_of_find?_eq_some hf
+        have h2 : x.1 = p := by simpa using List.find?_some hf
+        exact List.mem_map.mpr ⟨x, h1, h2⟩
+  have hb : q.length + cost (visit fs) [top] (fs.map (·.1)) < walkFuel fs q := by
+    have h1 := cost_le_total (visit fs) [top] (fs.map (·.1))
+    have h2 : (fs.map fun x => 1 + incCount (visit fs) x.1).sum = ((fs.map (·.1)).map fun u => 1 + incCount (visit fs) u).sum := by
+      simp [List.map_map, Function.comp_def]
+    unfold walkFuel
+    rw [h2]; omega
+  exact walk_fuel (visit fs) (fs.map (·.1)) hu _ _ q [top] (by omega) hb
+
+/-- non-vacuity: `requirements.txt` includes `reqs/base.txt` (and a file that does not exist); `reqs/base.txt` includes
+`pinned.txt` — its neighbour `reqs/pinned.txt`, NOT the same-named decoy next to the top-level file — and
+`../common/shared.txt`, which includes `../requirements.txt` (a cycle back to the top) and `../reqs/base.txt` (a second route) -/
+def Requirements.exTop : Requirements.FileSpec :=
+  { path := "requirements.txt".toList, rs := [{ name := "top".toList, ver := "1".toList }],
+    ℓ := { before := fun _ => [.incl [' '] "reqs/base.txt".toList, .incl [] "missing.txt".toList, .option "-requirement pinned.txt".toList] } }
+def Requirements.exFiles : List Requirements.FileSpec :=
+  [ { path := "reqs/base.txt".toList, rs := [{ name := "base".toList, ver := "2".toList }],
+      ℓ := { after := [.incl [' '] "pinned.txt".toList, .incl ['\t'] "../common/shared.txt".toList] } },
+    { path := "reqs/pinned.txt".toList, rs := [{ name := "leaf".toList, ver := "3.0".toList }], ℓ := {} },
+    { path := "pinned.txt".toList, rs := [{ name := "decoy".toList, ver := "0".toList }], ℓ := {} },
+    { path := "common/shared.txt".toList, rs := [{ name := "shared".toList, op := .ge, ver := "4".toList }],
+      ℓ := { before := fun _ => [.incl [' '] "../requirements.txt".toList, .incl [' '] "../reqs/base.txt".toList] } },
+    { path := "requirements.txt".toList, rs := [{ name := "top".toList, ver := "1".toList }], ℓ := {} } ]
+example : ∀ f ∈ Requirements.exTop :: Requirements.exFiles, Requirements.WFfile f := by decide
+example : Requirements.extractAll (Requirements.filesOf Requirements.exFiles) Requirements.exTop.path (Requirements.content Requirements.exTop)
+    = .ok [("top".toList, "1".toList, ["requirements.txt".toList]),
+           ("base".toList, "2".toList, ["requirements.txt".toList, "reqs/base.txt".toList]),
+           ("leaf".toList, "3.0".toList, ["requirements.txt".toList, "reqs/pinned.txt".toList]),
+           ("shared".toList, "4".toList, ["requirements.txt".toList, "common/shared.txt".toList])] := by decide
 
 end Scalibr.Parsers
 
